@@ -145,7 +145,8 @@ class PtTempo(BaseAPIClass):
         self._coupling_comm = self._bath._coupling_comm
         self._coupling_acomm = self._bath._coupling_acomm
 
-        tmp_num_steps = int((end_time - self._start_time)/self._parameters.dt)
+        tmp_num_steps = int(np.round(
+            (end_time - self._start_time)/self._parameters.dt, decimals=9))
         assert tmp_num_steps >= 2, \
             "Parameter `end_time` must be more than two times steps " \
             + "larger than the parameter `start_time`!"
